@@ -19,12 +19,15 @@ import (
 type vestEntry struct {
 	Total, Claimed math.Int
 	Start, N       int64
+	Denom          string // the denom the entry releases
 }
 
 type vestSnap struct {
 	entries []vestEntry
-	eden    math.Int // claimable (claimed-bucket) Eden
-	elys    math.Int // liquid uelys
+	eden    math.Int            // claimable (claimed-bucket) Eden
+	elys    math.Int            // liquid uelys
+	wallet  map[string]math.Int // every liquid balance
+	claimed map[string]math.Int // claimed bucket, every denom
 	h       int64
 }
 
@@ -46,9 +49,12 @@ func (m *C14) Stats() *Stats { return m.st }
 
 func snapVest(w *chain.World, ctx sdk.Context, addr sdk.AccAddress) *vestSnap {
 	c := w.App.CommitmentKeeper.GetCommitments(ctx, addr)
-	s := &vestSnap{eden: c.GetClaimedForDenom("ueden"), elys: w.App.BankKeeper.GetBalance(ctx, addr, "uelys").Amount, h: ctx.BlockHeight()}
+	s := &vestSnap{eden: c.GetClaimedForDenom("ueden"), elys: w.App.BankKeeper.GetBalance(ctx, addr, "uelys").Amount, h: ctx.BlockHeight(), wallet: balMap(w, ctx, addr.String()), claimed: map[string]math.Int{}}
+	for _, cl := range c.Claimed {
+		s.claimed[cl.Denom] = cl.Amount
+	}
 	for _, v := range c.VestingTokens {
-		s.entries = append(s.entries, vestEntry{Total: v.TotalAmount, Claimed: v.ClaimedAmount, Start: v.StartBlock, N: v.NumBlocks})
+		s.entries = append(s.entries, vestEntry{Total: v.TotalAmount, Claimed: v.ClaimedAmount, Start: v.StartBlock, N: v.NumBlocks, Denom: v.Denom})
 	}
 	return s
 }
@@ -56,7 +62,11 @@ func snapVest(w *chain.World, ctx sdk.Context, addr sdk.AccAddress) *vestSnap {
 func (s *vestSnap) String() string {
 	var sb strings.Builder
 	for _, e := range s.entries {
-		fmt.Fprintf(&sb, "[T=%s C=%s s=%d N=%d]", e.Total, e.Claimed, e.Start, e.N)
+		if e.Denom == "" || e.Denom == "uelys" {
+			fmt.Fprintf(&sb, "[T=%s C=%s s=%d N=%d]", e.Total, e.Claimed, e.Start, e.N)
+		} else {
+			fmt.Fprintf(&sb, "[T=%s C=%s s=%d N=%d %s]", e.Total, e.Claimed, e.Start, e.N, e.Denom)
+		}
 	}
 	return sb.String()
 }
@@ -64,7 +74,9 @@ func (s *vestSnap) String() string {
 func (s *vestSnap) outstanding() math.Int {
 	t := math.ZeroInt()
 	for _, e := range s.entries {
-		t = t.Add(e.Total.Sub(e.Claimed))
+		if e.Denom == "" || e.Denom == "uelys" {
+			t = t.Add(e.Total.Sub(e.Claimed))
+		}
 	}
 	return t
 }
@@ -124,7 +136,7 @@ func (m *C14) PostTx(w *chain.World, ctx sdk.Context, tx *chain.TxRecord, succes
 	}
 	switch x := tx.Msgs[0].(type) {
 	case *commitmenttypes.MsgClaimVesting:
-		exp := math.ZeroInt()
+		expBy := map[string]math.Int{}
 		want := []vestEntry{}
 		for _, e := range pre.entries {
 			sched := schedule(e, h)
@@ -132,7 +144,11 @@ func (m *C14) PostTx(w *chain.World, ctx sdk.Context, tx *chain.TxRecord, succes
 			if nc.IsNegative() { // total was reduced by a cancel after a claim: nothing until the schedule catches up
 				nc = math.ZeroInt()
 			}
-			exp = exp.Add(nc)
+			dn := e.Denom
+			if dn == "" {
+				dn = "uelys"
+			}
+			addTo(expBy, dn, nc)
 			e2 := e
 			e2.Claimed = e.Claimed.Add(nc)
 			if e2.Claimed.GT(e2.Total) {
@@ -142,9 +158,19 @@ func (m *C14) PostTx(w *chain.World, ctx sdk.Context, tx *chain.TxRecord, succes
 				want = append(want, e2)
 			}
 		}
+		exp := zi(expBy, "uelys")
 		got := post.elys.Sub(pre.elys)
 		if !got.Equal(exp) {
 			m.viol(w, "C14.claim_releases_schedule", tx.Signer.Name, op, fmt.Sprintf("height %d: claim credited %s uelys, linear schedule says %s; entries before %s", h, got, exp, pre))
+		}
+		for dn, e := range expBy {
+			if dn == "uelys" {
+				continue
+			}
+			g2 := zi(post.wallet, dn).Sub(zi(pre.wallet, dn))
+			if !g2.Equal(e) {
+				m.viol(w, "C14.claim_releases_schedule", tx.Signer.Name, op, fmt.Sprintf("height %d: claim credited %s %s, linear schedule says %s; entries before %s", h, g2, dn, e, pre))
+			}
 		}
 		ws := (&vestSnap{entries: want}).String()
 		if ws != post.String() {
@@ -154,6 +180,15 @@ func (m *C14) PostTx(w *chain.World, ctx sdk.Context, tx *chain.TxRecord, succes
 			m.viol(w, "C14.claim_leaves_eden", tx.Signer.Name, op, fmt.Sprintf("claimable Eden changed %s -> %s in a claim", pre.eden, post.eden))
 		}
 		addTo(m.released, who, got)
+	case *commitmenttypes.MsgVestLiquid:
+		// liquid tokens of the base denom are deposited and a new entry releases the vesting denom
+		if !zi(pre.wallet, x.Denom).Sub(zi(post.wallet, x.Denom)).Equal(x.Amount) {
+			m.viol(w, "C14.vest_liquid_takes_exact_amount", tx.Signer.Name, op, fmt.Sprintf("vest-liquid %s%s: wallet %s -> %s", x.Amount, x.Denom, zi(pre.wallet, x.Denom), zi(post.wallet, x.Denom)))
+		}
+		if len(post.entries) != len(pre.entries)+1 || !post.entries[len(post.entries)-1].Total.Equal(x.Amount) || !post.entries[len(post.entries)-1].Claimed.IsZero() {
+			m.viol(w, "C14.vest_creates_entry", tx.Signer.Name, op, fmt.Sprintf("entries %s -> %s", pre, post))
+		}
+		return
 	case *commitmenttypes.MsgVest:
 		if x.Denom != "ueden" {
 			return
@@ -245,7 +280,7 @@ func (m *C14) AfterCommit(w *chain.World, blk *chain.BlockRecord) {
 	for _, c := range w.App.CommitmentKeeper.GetAllCommitments(ctx) {
 		s := &vestSnap{}
 		for _, v := range c.VestingTokens {
-			s.entries = append(s.entries, vestEntry{Total: v.TotalAmount, Claimed: v.ClaimedAmount, Start: v.StartBlock, N: v.NumBlocks})
+			s.entries = append(s.entries, vestEntry{Total: v.TotalAmount, Claimed: v.ClaimedAmount, Start: v.StartBlock, N: v.NumBlocks, Denom: v.Denom})
 			if v.ClaimedAmount.GT(v.TotalAmount) || v.ClaimedAmount.IsNegative() {
 				m.viol(w, "C14.released_le_total", c.Creator, "state", fmt.Sprintf("stored entry claimed %s total %s", v.ClaimedAmount, v.TotalAmount))
 			}
